@@ -212,14 +212,17 @@ func (w *World) harnessFail(format string, a ...any) {
 type simTransport struct{}
 
 func (simTransport) RoundTrip(req *http.Request) (*http.Response, error) {
-	w := theWorld
-	if w == nil {
-		return nil, errors.New("no simulation world")
-	}
 	var body []byte
 	if req.Body != nil {
 		body, _ = io.ReadAll(req.Body)
 		req.Body.Close()
+	}
+	if directRT != nil {
+		return directRoundTrip(req, body)
+	}
+	w := theWorld
+	if w == nil {
+		return nil, errors.New("no simulation world")
 	}
 	host := req.URL.Hostname()
 	if w.dead || !w.liveHost(host) {
